@@ -37,10 +37,12 @@ var trUnits = []*trUnit{
 		"Multiply", "newNormalizedPrices", "Prices.addPrice", "Prices.Insert", "NormalizedPrices.Price", "NormalizedPrices.Valuate",
 		"Prices.normalize", "Prices.Normalize",
 	}},
+	{pkg: "lib/common/predicate", mod: "Predicate", funcs: []string{"True"}},
+	{pkg: "lib/common/mapper", mod: "Mapper", funcs: []string{"Identity"}},
 	{pkg: "lib/model", mod: "Model", funcs: nil},
 	{pkg: "lib/journal", mod: "Journal", funcs: []string{"ComputePrices", "Valuate", "Filter", "CloseAccounts", "CompareDays", "New", "Builder.Day", "Builder.Build",
-		"Builder.Add", "Builder.Period"},
-		agree: map[string]string{"ComputePrices": "Process", "Valuate": "Process", "Filter": "Process", "CloseAccounts": "Process"}},
+		"Builder.Add", "Builder.Period", "Query.Into"},
+		agree: map[string]string{"ComputePrices": "Process", "Valuate": "Process", "Filter": "Process", "CloseAccounts": "Process", "Query.Into": "Query"}},
 }
 
 func (u *trUnit) agreeMod(fn string) string {
@@ -97,7 +99,9 @@ func (t *trTranslator) directEffectIn(info *types.Info, root ast.Node) bool {
 			eff = true
 		case *ast.IndexExpr:
 			if tv, ok := info.Types[x.X]; ok && tv.Type != nil {
-				if _, isMap := tv.Type.Underlying().(*types.Map); !isMap {
+				_, isMap := tv.Type.Underlying().(*types.Map)
+				_, isFunc := tv.Type.Underlying().(*types.Signature) // F[T]: an instantiation, not an index
+				if !isMap && !isFunc {
 					eff = true
 				}
 			}
@@ -119,10 +123,16 @@ func (t *trTranslator) directEffectIn(info *types.Info, root ast.Node) bool {
 				if b, ok := info.Uses[fn].(*types.Builtin); ok && b.Name() == "panic" {
 					eff = true
 				}
+				if v, ok := info.Uses[fn].(*types.Var); ok && trSigOf(v.Type()) != nil {
+					eff = true // a call of a function value (nil panics)
+				}
 			case *ast.SelectorExpr:
 				var fo *types.Func
 				if sel, ok := info.Selections[fn]; ok {
 					fo, _ = sel.Obj().(*types.Func)
+					if sel.Kind() == types.FieldVal && trSigOf(sel.Type()) != nil {
+						eff = true // a call of a field of function type
+					}
 				} else {
 					fo, _ = info.Uses[fn.Sel].(*types.Func)
 				}
